@@ -20,8 +20,9 @@ def corners_oracle(spec):
     conv = spec['conv']
     ny, nx = spec.get('ny', 3), spec.get('nx', 4)
     if conv == 'cf1d':
-        lat = datasets.axis_values(ny, -10.0, 1.0, spec.get('descending_lat', False), spec.get('nonuniform', False))
-        lon = datasets.axis_values(nx, 100.0, 2.0, spec.get('descending_lon', False), spec.get('nonuniform', False))
+        origin, step = spec.get('origin', (100.0, -10.0)), spec.get('step', (2.0, 1.0))
+        lat = datasets.axis_values(ny, origin[1], step[1], spec.get('descending_lat', False), spec.get('nonuniform', False))
+        lon = datasets.axis_values(nx, origin[0], step[0], spec.get('descending_lon', False), spec.get('nonuniform', False))
         if spec.get('bounds'):
             s = spec.get('bounds_shrink', 0.25)
             lb = [(v - s, v + s) for v in lat]
